@@ -15,6 +15,9 @@ import sys
 VERIF = os.path.dirname(os.path.dirname(os.path.abspath(__file__)))
 if VERIF not in sys.path:
     sys.path.insert(0, VERIF)
+REPO = os.environ.get("RXVC_REPO", "/repo")  # the tree under test (the checks run on /repo; scratch copies are used by my own side runs only)
+if REPO not in sys.path:
+    sys.path.insert(0, REPO)
 
 
 def _f_none(*a, **k):
